@@ -1,0 +1,25 @@
+//go:build verif
+
+package grpc
+
+import (
+	node "buf.build/gen/go/agglayer/agglayer/grpc/go/agglayer/node/v1/nodev1grpc"
+	aggkitgrpc "github.com/agglayer/aggkit/grpc"
+)
+
+// This file is only compiled with the `verif` build tag. It adds an entry point used by the
+// runtime-verification harness (/verif) and does not change any existing behaviour.
+
+// VerifNewAgglayerGRPCClient builds the real client around caller-supplied service clients, so
+// that a fake submission service can capture the exact protobuf request.
+func VerifNewAgglayerGRPCClient(cfg *aggkitgrpc.ClientConfig,
+	networkStateService node.NodeStateServiceClient,
+	cfgService node.ConfigurationServiceClient,
+	submissionService node.CertificateSubmissionServiceClient) *AgglayerGRPCClient {
+	return &AgglayerGRPCClient{
+		cfg:                 cfg,
+		networkStateService: networkStateService,
+		cfgService:          cfgService,
+		submissionService:   submissionService,
+	}
+}
